@@ -316,7 +316,38 @@ def check_columns(case, ctx):
         ctx.eq("column-to-x-hit-line", line.split(",")[0], str(x), f"keys={keys} column={c}")
 
 
+# --------------------------------------------------------------------------- #
+# (5) the real .osu files shipped with the repository (read direction; also checks the reference on real syntax)
+# --------------------------------------------------------------------------- #
+BUNDLED_DIR = os.path.join(os.environ.get("VERIF_REPO", "/repo"), "rsc", "maps", "osu")
+
+
+def bundled_cases(tier):
+    for fn in sorted(os.listdir(BUNDLED_DIR)) if os.path.isdir(BUNDLED_DIR) else []:
+        if fn.endswith(".osu"):
+            yield dict(file=fn)
+
+
+def check_bundled(case, ctx):
+    from reamber.osu.OsuMap import OsuMap
+
+    path = os.path.join(BUNDLED_DIR, case["file"])
+    with open(path, encoding="utf8") as fh:
+        text = fh.read().split("\n")
+    ref = R.parse(text, strict=False)
+    v14 = text[0].strip().endswith("v14")
+    ctx.label("bundled-v14", v14)
+    ctx.label("bundled-older-version", not v14)
+    ctx.nt(bool(ref["holds"]) and bool(ref["hits"]))
+    m = ctx.call("read_file", OsuMap.read_file, path)
+    got = ctx.call("snapshot", G.snapshot, m)
+    # older format versions write sample events with the numeric event type (5,...) - outside the v14 dialect
+    lists = ("hits", "holds", "bpms", "svs", "samples") if v14 else ("hits", "holds", "bpms", "svs")
+    _report(ctx, "bundled", R.diff_charts(ref, got, time="exact", rel=1e-9, meta_fields=ref["meta_present"], lists=lists))
+
+
 SUBS = [
+    Sub("bundled", check_bundled, enumerate=bundled_cases, shards={"quick": 4, "thorough": 4}),
     Sub("read", check_read, strategy=read_case, examples={"quick": 300, "thorough": 2000}, shards={"quick": 8, "thorough": 16}, fuzz={"thorough": 150}),
     Sub("write", check_write, strategy=write_case, examples={"quick": 250, "thorough": 1500}, shards={"quick": 6, "thorough": 16}),
     Sub("cycle", check_cycle, strategy=cycle_case, examples={"quick": 100, "thorough": 500}, shards={"quick": 10, "thorough": 16}),
